@@ -106,6 +106,7 @@ type strCase struct {
 	API  string `json:"api"` // grs | rpr | rop
 	RH   bool   `json:"rh"`
 	Icpt bool   `json:"icpt"`
+	Cap  int    `json:"cap"` // length of the head buffer handed to the call
 	Mode int    `json:"mode"`
 	A    uint64 `json:"a"`
 	B    uint64 `json:"b"`
@@ -134,8 +135,6 @@ func setupTarget(dir string, fmtName string, spec objSpec, pre, post []int) *tar
 	tg.obj = spec.bytes()
 	tg.pld = spec.payload()
 	np := spec.nonPayload()
-	hf := lenField(1, nil) // dummy
-	_ = hf
 	// header field value = after f1,f2 and tag+len of f3
 	tg.hdr = headerValue(np)
 	stored := tg.obj
@@ -226,6 +225,7 @@ func (tg *target) run(g *rng, api string, rh, icpt bool, mode int, a, b uint64) 
 		c.HdrOK = true
 		switch api {
 		case "grs":
+			c.Cap = 2 * objectwire.NonPayloadFieldsBufferLength
 			var pl uint64
 			hdr, pl, s, e := tg.t.GetRangeStream(addr, rng, rh)
 			stream, err, c.PldLen = s, e, pl
@@ -235,9 +235,11 @@ func (tg *target) run(g *rng, api string, rh, icpt bool, mode int, a, b uint64) 
 			}
 		case "rpr":
 			buf := make([]byte, 2*objectwire.NonPayloadFieldsBufferLength+g.intn(3)*1000)
+			c.Cap = len(buf)
 			stream, err = tg.t.ReadPayloadRange(addr, a, b, buf, icptFn)
 		case "rop":
 			buf := make([]byte, 2*objectwire.NonPayloadFieldsBufferLength+g.intn(3)*1000)
+			c.Cap = len(buf)
 			n, s, e := tg.t.ReadObjectParts(buf, addr, rng, icptFn)
 			stream, err = s, e
 			if e == nil && !(rng.IsSet() && !rng.IsFull()) {
@@ -289,7 +291,7 @@ func rangeVals(plen, q int) []uint64 {
 			m[uint64(v)] = true
 		}
 	}
-	for _, v := range []int{0, 1, 2, q - 1, q, q + 1, plen - 1, plen, plen + 1, plen / 2, plen - q, plen - q + 1, plen - q - 1} {
+	for _, v := range []int{0, 1, q - 1, q, q + 1, plen - 1, plen, plen + 1, plen - q} {
 		add(v)
 	}
 	var r []uint64
@@ -340,6 +342,16 @@ func c11Streams(g *rng) {
 					bs := vals
 					if mode == 0 || mode >= 3 {
 						bs = []uint64{0}
+					} else if exhaustiveTo == 0 {
+						// second values that put the range end next to the buffered part / payload end
+						bs = nil
+						seen := map[uint64]bool{}
+						for _, v := range []int{0, 1, q - int(a), q - int(a) + 1, plen - int(a), plen - int(a) + 1, plen} {
+							if v >= 0 && !seen[uint64(v)] {
+								seen[uint64(v)] = true
+								bs = append(bs, uint64(v))
+							}
+						}
 					}
 					for _, b := range bs {
 						if mode == 0 && a != 0 {
@@ -377,8 +389,8 @@ func c11Streams(g *rng) {
 	runAll(setupTarget(newDir(), "plain", objSpec{SigK: 33, AttrK: 3, PF: true}, nil, nil), 3, allAPIs)
 
 	// 2. the head buffer ends around the payload tag / inside the length varint
-	plens := []int{1, 100, 200, 20000, 70000}
-	deltas := []int{-6, -4, -3, -2, -1, 0, 1}
+	plens := []int{1, 200, 20000}
+	deltas := []int{-4, -3, -2, -1, 0}
 	if thorough() {
 		plens = []int{1, 100, 127, 128, 200, 16383, 16384, 20000, 70000, 100000}
 		deltas = []int{-40, -6, -5, -4, -3, -2, -1, 0, 1, 2}
@@ -390,7 +402,7 @@ func c11Streams(g *rng) {
 				continue
 			}
 			runAll(setupTarget(newDir(), "plain", spec, nil, nil), 0, allAPIs)
-			if d <= -3 && (plen == 200 || plen == 70000) {
+			if d <= -3 && (plen == 200 || plen == 20000) {
 				runAll(setupTarget(newDir(), "combined", spec, []int{5, 300}, []int{9}), 0, []string{"grs", "rop"})
 			}
 		}
@@ -408,7 +420,10 @@ func c11Streams(g *rng) {
 		case 1:
 			plen = npfbl - 400 + g.intn(800)
 		case 2:
-			plen = g.intn(100000)
+			plen = g.intn(30000)
+			if thorough() || i < 2 {
+				plen = g.intn(100000)
+			}
 		default:
 			plen = 20000 + g.intn(2000)
 		}
@@ -423,6 +438,11 @@ func c11Streams(g *rng) {
 		f := []string{"plain", "combined", "zplain", "zcombined"}[i%4]
 		apis := allAPIs
 		runAll(setupTarget(newDir(), f, spec, pre, post), 0, apis)
+	}
+	// 3b. compressed binaries that are short on disk but long once decompressed
+	for _, f := range []string{"zplain", "zcombined"} {
+		spec := objSpec{SigK: 33, AttrK: 20, PLen: 52158, Seed: 113, HLen: 52158, PF: true}
+		runAll(setupTarget(newDir(), f, spec, []int{300}, []int{20}), 0, allAPIs)
 	}
 	// 4. combined record of exactly / around the buffer length, followed by other records
 	for _, d := range []int{-1, 0, 1} {
